@@ -1,6 +1,7 @@
 package c11
 
 import (
+	"path"
 	"sort"
 	"strings"
 	"unicode/utf8"
@@ -348,7 +349,10 @@ func (t *otree) bindHardLinks() {
 		switch {
 		case f == nil:
 			t.flags.dangling++
-			if l.lit != pathOf(l) {
+			// The cleanup of New looks the parent up by the literal directory
+			// name of the link; that finds the real parent only if the parent
+			// is registered under exactly that name.
+			if l.lit != pathOf(l) || (l.parent.parent != nil && l.parent.lit != path.Dir(l.lit)) {
 				t.flags.danglingThrough = true
 			}
 			for _, l2 := range links {
